@@ -280,7 +280,10 @@ def check_hint(t, order, part, gen, tier, seed):
         # violation_* family: only the class of the signal changes
         if order == 0 and not (deep and tier == 'quick'):
             h = HS.build(t)
+            from beartype.roar import BeartypeCallHintViolation
             fs = {k: drive.make_identity(h, c) for k, c in _STATE['vconfs'].items()}
+            frs = {k: drive.make_return_only(h, c) for k, c in _STATE['vconfs'].items()}
+            fps = {k: drive.make_param_only(h, c) for k, c in _STATE['vconfs'].items()}
             objs = (gen.wit(t)[:4] + gen.bad(t)[:4] + gen.mixed(t)[:6])
             for o in objs:
                 x = O.mk(o)
@@ -289,8 +292,33 @@ def check_hint(t, order, part, gen, tier, seed):
                 for r in (0, 1, 2):
                     ref = None
                     for k, c in _STATE['vconfs'].items():
-                        v = norm_verdict(observe(h, c, fs[k], mkx, r, rec))
-                        cov['evaluations'] += 3
+                        ob = observe(h, c, fs[k], mkx, r, rec)
+                        v = norm_verdict(ob)
+                        # the signal is delivered as configured: the configured class is raised, or warned and the call proceeds
+                        kinds = {}
+                        for kind, fn in (('param', fps[k]), ('return', frs[k])):
+                            drive.DRAW[0] = r
+                            del rec[:]
+                            try:
+                                fn(mkx())
+                                kinds[kind] = 'warn' if rec else 'ok'
+                            except BeartypeCallHintViolation:
+                                kinds[kind] = 'viol'
+                            except Exception as e:
+                                kinds[kind] = 'exc' if type(e).__module__.startswith('bearmc') else 'ERR:' + type(e).__name__
+                            del rec[:]
+                        rkind = kinds['return']
+                        exp = _STATE['vexp'][k]
+                        for kind, got in (('door', ob[1][1]), ('param', kinds['param']), ('return', rkind)):
+                            want = 'warn' if issubclass(exp[kind], Warning) else 'viol' if exp[kind].__module__.startswith('beartype') else 'exc'
+                            if got != 'ok' and got != want:
+                                viol.append((f'violation_type:delivery:{k}:{kind}:{got}',
+                                             f'under {k} a {kind} rejection is delivered as {got}, configured {exp[kind].__name__} ({want}) for x = {O.osrc(o)}, H = {HS.src(t)}, draw = {r}',
+                                             {'term': t, 'conf': k, 'oterm': o, 'draw': r, 'order': 0}))
+                        if (rkind == 'ok') != v[0]:
+                            viol.append((f'violation_type:return-verdict:{k}:{HE.shape(t)}', f'return check under {k} {"accepts" if rkind == "ok" else "rejects"} x = {O.osrc(o)} which is_bearable {"accepts" if v[0] else "rejects"} (H = {HS.src(t)}, draw = {r})',
+                                         {'term': t, 'conf': k, 'oterm': o, 'draw': r, 'order': 0}))
+                        cov['evaluations'] += 5
                         if ref is None:
                             ref = v
                         elif v != ref:
@@ -317,7 +345,8 @@ def _setup(ctx_tier, seed):
     ct = conf_table()
     _STATE.update(tier=ctx_tier, seed=seed, rules=tbl, default=BeartypeConf(),
                   confs={k: make_conf(kw, ov) for k, (kw, ov, rules) in tbl.items()},
-                  vconfs={k: ct[k][0] for k in ('default', 'exc', 'warn', 'perkind', 'mixed')},
+                  vconfs={k: ct[k][0] for k in ('default', 'exc', 'warn', 'perkind', 'mixed', 'mixed-return-warns')},
+                  vexp={k: ct[k][1] for k in ct},
                   res=(0, 1, 2) if ctx_tier == 'quick' else tuple(range(6)) + (2 ** 32 - 1,))
 
 
@@ -353,7 +382,7 @@ def run(ctx):
               'container hint, both together) x objects (witnesses, violators and mixed containers of both the original and the '
               'rewritten hint) x draw residues: observation under the configuration must equal the observation of the hand-rewritten '
               'hint under the default configuration (is_bearable, die_if_unbearable incl. culprits, decorated param+return), with the '
-              'configuration list walked forward and backward in separate processes; plus verdict invariance under 5 violation_* settings. '
+              'configuration list walked forward and backward in separate processes; plus verdict invariance and configured delivery (raised class / warned and proceeding, per door / parameter / return) under 6 violation_* settings. '
               'states = (hint, conf, object, draw); distinct_nontrivial = rejecting states.'),
     )
     if not tot.get('accept') or not tot.get('reject'):
